@@ -10,7 +10,7 @@ open PymotoVerif.LDAS Matrix
 /-- the configuration the driver uses at `ℚ` -/
 def cfgQ : Cfg ℚ :=
   { cj := id, re := id, im := fun _ => 0, lt := fun a b => decide (a < b), tol2 := 1 / 10 ^ 14,
-    eps2 := 1 / 10 ^ 20 }
+    eps2 := 1 / 10 ^ 20, scale := fun _ => 1 }
 
 theorem laws_cfgQ : Laws cfgQ :=
   { cj_add := fun _ _ => rfl, cj_mul := fun _ _ => rfl, cj_cj := fun _ => rfl, re_add := fun _ _ => rfl,
